@@ -117,6 +117,32 @@ def enforced(prog: Program) -> dict[str, Any]:
     return {"fn": fn, "terms": out}
 
 
+def min_power_shape_ok(prog: Program) -> tuple[Any, bool]:
+    """min_power_g == max(battery exclusion, min_i inverter exclusion) in the availability ratio."""
+    ar = prog.func(f"{BDA_MOD}:BatteryDistributionAlgorithm._compute_battery_availability_ratio")
+    ctor = find_calls(ar.node, lambda c: u(c.func) == "AvailabilityRatio")
+    ok = False
+    if len(ctor) == 1:
+        params = ["battery_id", "inverter_ids", "ratio", "min_power"]
+        args = dict(zip(params, ctor[0].args))
+        args.update({k.arg: k.value for k in ctor[0].keywords if k.arg})
+        mp = args.get("min_power")
+        if isinstance(mp, ast.Call) and u(mp.func) == "max" and len(mp.args) == 2 and not mp.keywords:
+            shapes = []
+            for a in mp.args:
+                if isinstance(a, ast.Subscript) and u(a.value) == "excl_bounds":
+                    shapes.append(("bat", u(a.slice)))
+                elif isinstance(a, ast.Call) and u(a.func) == "min" and len(a.args) == 1 and isinstance(
+                        a.args[0], (ast.GeneratorExp, ast.ListComp)) and len(a.args[0].generators) == 1 \
+                        and not a.args[0].generators[0].ifs and isinstance(a.args[0].elt, ast.Subscript) \
+                        and u(a.args[0].elt.value) == "excl_bounds" \
+                        and u(a.args[0].elt.slice) == u(a.args[0].generators[0].target):
+                    shapes.append(("min_inv", u(a.args[0].generators[0].iter)))
+            ok = sorted(k for k, _ in shapes) == ["bat", "min_inv"] and all(
+                ".component_id" in v if k == "bat" else "inverter" in v for k, v in shapes)
+    return ar, ok
+
+
 def check_agg(run: Run, prog: Program) -> None:
     adv = advertised(prog)
     enf = enforced(prog)
@@ -145,23 +171,17 @@ def check_agg(run: Run, prog: Program) -> None:
                          ("el", "min", "Σ_g min(a_g, b_g) <= min(Σ a_g, Σ b_g)")):
         a, e = adv["terms"].get(names[f]), enf["terms"].get(efield[f])
         ok_a = a == want_adv[f]
-        ok_e = e == (op, tuple(sorted((("sum_gleaf", ("bat", f)), ("sum_all", ("inv", f))))))
+        # enforced: either the same per-group aggregate (identical zones) or op(Σ_g battery, Σ_all inverter),
+        # which the lemma puts inside the advertised one
+        ok_e = e == a or e == (op, tuple(sorted((("sum_gleaf", ("bat", f)), ("sum_all", ("inv", f))))))
         run.check(ok_a and ok_e, "C17.AGG", afn.qual, f"{names[f]}: {lemma}",
                   f"the advertised exclusion bound is not provably at least as wide as the enforced one: "
                   f"advertised {a} (needs Σ_g {op}(battery, Σ_i inverter)), enforced {e} (needs "
-                  f"{op}(Σ_g battery, Σ_all inverter)); the lemma `{lemma}` no longer applies, so a power "
+                  f"the same aggregate or {op}(Σ_g battery, Σ_all inverter)); the lemma `{lemma}` no longer applies, so a power "
                   "outside the advertised exclusion zone can fall inside the enforced one",
                   node=adv["loop"], file=afn.file, instance=f"exclusion {f}: lemma {lemma} applies")
     # group minimum power <= advertised exclusion (x_i >= 0):  max(b, min_i x_i) <= max(b, Σ_i x_i)
-    ar = prog.func(f"{BDA_MOD}:BatteryDistributionAlgorithm._compute_battery_availability_ratio")
-    ctor = find_calls(ar.node, lambda c: u(c.func) == "AvailabilityRatio")
-    ok = False
-    if len(ctor) == 1:
-        mp = {k.arg: k.value for k in ctor[0].keywords}.get("min_power")
-        if isinstance(mp, ast.Call) and u(mp.func) == "max" and len(mp.args) == 2:
-            t = sorted(u(a).replace(" ", "") for a in mp.args)
-            ok = t == sorted(["excl_bounds[battery.component_id]",
-                              "min((excl_bounds[inverter_id]forinverter_idininverter_ids))"])
+    ar, ok = min_power_shape_ok(prog)
     run.check(ok, "C17.AGG", ar.qual, "min_power_g = max(b_g, min_i x_i) <= max(b_g, Σ_i x_i) = advertised share",
               "a group's minimum power is not max(battery exclusion, smallest inverter exclusion): it may "
               "exceed the group's share of the advertised exclusion bound", node=ar.node, file=ar.file)
